@@ -457,11 +457,17 @@ def drainIncoming (s : SchedSt) : List Msg → List Req → List Ev → SchedSt 
     drainIncoming s ms (toSched ++ ts.filter (fun t => t.ranks > 0))
       (evs ++ (ts.filter (fun t => t.ranks ≤ 0)).map (fun t => Ev.adv t.uid "FAILED"))
 
+/-- the task names an environment that is not (yet) registered -/
+def envMissing (s : SchedSt) (t : Req) : Bool :=
+  match t.env with
+  | some e => decide (e ∉ s.envs)
+  | none   => false
+
 /-- placement of the drained tasks of one priority -/
 def incomingOne (c : Cfg) : SchedSt → List Req → List Req → List Ev → SchedSt × List Req × List Ev
   | s, [],      toWait, evs => (s, toWait, evs)
   | s, t :: ts, toWait, evs =>
-    if (match t.env with | some e => decide (e ∉ s.envs) | none => false) then
+    if envMissing s t then
       incomingOne c s ts (toWait ++ [t]) evs
     else
       match t.app with
